@@ -356,3 +356,123 @@ theorem embedded_parts_in_source_order (ps : List PieceE) (env : Nat) (acc res :
   ⟨fun ⟨f, hf⟩ => seq_of_pieces ps f acc res s s' hf, pieces_of_seq⟩
 
 end Pangaea.C08
+
+namespace Pangaea.C08
+open Pangaea.Core Pangaea.C07
+
+/-- the pairs of an object literal: one after the other in source order; within a pair with a computed key the
+    value is evaluated before the key (as the implementation does); a name that occurs again keeps the first value -/
+inductive SeqPairs (env : Nat) : List PairE → List (String × Val) → St → List (String × Val) → St → Prop
+  | nil (acc : List (String × Val)) (s : St) : SeqPairs env [] acc s acc s
+  | named {k : String} {e : Expr} {rest : List PairE} {acc res : List (String × Val)} {s s1 s2 : St} {v : Val} :
+      GivesE e env s v s1 → SeqPairs env rest (addFirst acc k v) s1 res s2 → SeqPairs env (.named k e :: rest) acc s res s2
+  | pinned {k ks : String} {e : Expr} {rest : List PairE} {acc res : List (String × Val)} {s s1 s2 s3 : St} {v : Val} :
+      GivesE e env s v s1 → GivesE (.ident k) env s1 (.str ks) s2 → SeqPairs env rest (addFirst acc ks v) s2 res s3 →
+      SeqPairs env (.pinned k e :: rest) acc s res s3
+  | computed {ke e : Expr} {ks : String} {rest : List PairE} {acc res : List (String × Val)} {s s1 s2 s3 : St} {v : Val} :
+      GivesE e env s v s1 → GivesE ke env s1 (.str ks) s2 → SeqPairs env rest (addFirst acc ks v) s2 res s3 →
+      SeqPairs env (.computed ke e :: rest) acc s res s3
+
+theorem evalPairs_lift {f g : Nat} {ps : List PairE} {env : Nat} {acc : List (String × Val)} {s s' : St} {r : R (List (String × Val))}
+    (h : evalPairs f ps env acc s = (r, s')) (hr : r.notFuel) (hfg : f ≤ g) : evalPairs g ps env acc s = (r, s') := by
+  obtain ⟨k, rfl⟩ := Nat.exists_eq_add_of_le hfg
+  induction k with
+  | zero => exact h
+  | succ k ih => exact (allLe (f + k)).evalPairs ps env acc s r s' (ih (Nat.le_add_right _ _)) hr
+
+theorem pairs_of_seq {env : Nat} {ps : List PairE} {acc res : List (String × Val)} {s s' : St} (h : SeqPairs env ps acc s res s') :
+    ∃ fuel, evalPairs fuel ps env acc s = (.ok res, s') := by
+  induction h with
+  | nil acc s => exact ⟨1, by simp [evalPairs, pureM]⟩
+  | @named k e rest acc res s s1 s2 v hv _ ih =>
+    obtain ⟨f, hf⟩ := hv
+    obtain ⟨g, hg⟩ := ih
+    have h1 := evalE_lift hf (by simp [R.notFuel]) (Nat.le_max_left f g)
+    have h2 := evalPairs_lift hg (by simp [R.notFuel]) (Nat.le_max_right f g)
+    exact ⟨max f g + 1, by rw [evalPairs]; simp [bindM, h1, h2]⟩
+  | @pinned k ks e rest acc res s s1 s2 s3 v hv hk _ ih =>
+    obtain ⟨f, hf⟩ := hv
+    obtain ⟨c, hc⟩ := hk
+    obtain ⟨g, hg⟩ := ih
+    have h1 := evalE_lift hf (by simp [R.notFuel]) (Nat.le_max_left f (max c g))
+    have h2 := evalE_lift hc (by simp [R.notFuel]) (Nat.le_trans (Nat.le_max_left c g) (Nat.le_max_right f (max c g)))
+    have h3 := evalPairs_lift hg (by simp [R.notFuel]) (Nat.le_trans (Nat.le_max_right c g) (Nat.le_max_right f (max c g)))
+    exact ⟨max f (max c g) + 1, by rw [evalPairs]; simp [bindM, h1, h2, h3]⟩
+  | @computed ke e ks rest acc res s s1 s2 s3 v hv hk _ ih =>
+    obtain ⟨f, hf⟩ := hv
+    obtain ⟨c, hc⟩ := hk
+    obtain ⟨g, hg⟩ := ih
+    have h1 := evalE_lift hf (by simp [R.notFuel]) (Nat.le_max_left f (max c g))
+    have h2 := evalE_lift hc (by simp [R.notFuel]) (Nat.le_trans (Nat.le_max_left c g) (Nat.le_max_right f (max c g)))
+    have h3 := evalPairs_lift hg (by simp [R.notFuel]) (Nat.le_trans (Nat.le_max_right c g) (Nat.le_max_right f (max c g)))
+    exact ⟨max f (max c g) + 1, by rw [evalPairs]; simp [bindM, h1, h2, h3]⟩
+
+theorem seq_of_pairs {env : Nat} : ∀ (ps : List PairE) (f : Nat) (acc res : List (String × Val)) (s s' : St),
+    evalPairs f ps env acc s = (.ok res, s') → SeqPairs env ps acc s res s' := by
+  intro ps
+  induction ps with
+  | nil =>
+    intro f acc res s s' h
+    cases f with
+    | zero => simp [evalPairs, outOfFuel] at h
+    | succ f => simp [evalPairs, pureM] at h; obtain ⟨rfl, rfl⟩ := h; exact .nil _ _
+  | cons p rest ih =>
+    intro f acc res s s' h
+    cases f with
+    | zero => simp [evalPairs, outOfFuel] at h
+    | succ f =>
+      cases p with
+      | named k e =>
+        rw [evalPairs] at h
+        simp only [bindM] at h
+        cases hev : evalE f e env s with
+        | mk r0 s1 =>
+          rw [hev] at h
+          cases r0 with
+          | ok v => simp only at h; exact .named ⟨f, hev⟩ (ih f _ res s1 s' h)
+          | _ => simp at h
+      | pinned k e =>
+        rw [evalPairs] at h
+        simp only [bindM] at h
+        cases hev : evalE f e env s with
+        | mk r0 s1 =>
+          rw [hev] at h
+          cases r0 with
+          | ok v =>
+            simp only at h
+            cases hk : evalE f (.ident k) env s1 with
+            | mk r1 s2 =>
+              rw [hk] at h
+              cases r1 with
+              | ok kv =>
+                cases kv with
+                | str ks => simp only at h; exact .pinned ⟨f, hev⟩ ⟨f, hk⟩ (ih f _ res s2 s' h)
+                | _ => simp [throwM] at h
+              | _ => simp at h
+          | _ => simp at h
+      | computed ke e =>
+        rw [evalPairs] at h
+        simp only [bindM] at h
+        cases hev : evalE f e env s with
+        | mk r0 s1 =>
+          rw [hev] at h
+          cases r0 with
+          | ok v =>
+            simp only at h
+            cases hk : evalE f ke env s1 with
+            | mk r1 s2 =>
+              rw [hk] at h
+              cases r1 with
+              | ok kv =>
+                cases kv with
+                | str ks => simp only at h; exact .computed ⟨f, hev⟩ ⟨f, hk⟩ (ih f _ res s2 s' h)
+                | _ => simp [throwM] at h
+              | _ => simp at h
+          | _ => simp at h
+
+/-- **The pairs of an object literal are evaluated once each, in source order; the first value given for a name is kept.** -/
+theorem pairs_in_source_order (ps : List PairE) (env : Nat) (acc res : List (String × Val)) (s s' : St) :
+    (∃ fuel, evalPairs fuel ps env acc s = (.ok res, s')) ↔ SeqPairs env ps acc s res s' :=
+  ⟨fun ⟨f, hf⟩ => seq_of_pairs ps f acc res s s' hf, pairs_of_seq⟩
+
+end Pangaea.C08
